@@ -1007,15 +1007,17 @@ static std::string doStep(const vj::Val& st) {
         TupleDecl::Decl sdecl = e->tuple_decl(*c.ctx);
         c.ctx->parsingEnd();
         o += ",\"sty\":" + typeJson(sty, &sdecl);
+        bool firstDone = false;
         try {
           Value& v = e->value(*c.ctx);
           o += ",\"val\":" + valueJson(v);
+          firstDone = true;
           if (st.boolean("twice", false)) {
             c.ctx->purgeWorkingMemory();
             Value& v2 = e->value(*c.ctx);
             o += ",\"val2\":" + valueJson(v2);
           }
-        } catch (RuntimeError& re) { oc = "runtime_error"; no = re.no; name = errName(re); }
+        } catch (RuntimeError& re) { oc = "runtime_error"; no = re.no; name = errName(re); if (firstDone) o += ",\"second_failed\":true"; }
         c.ctx->purgeWorkingMemory();
       } catch (ParseError& pe) { oc = "parse_error"; no = pe.no; }
       if (e) delete e;
